@@ -140,7 +140,8 @@ def callOk (fs : Facts) (act : SAct) (args : List (Str × Val)) (script : Handle
   if !validArgs fs act args then true else
   (match o.seen with | some s => dictEq s (normDict act.ins args) | none => false)
   && (match script with
-      | .ret vals =>
+      | .ret vals | .retVars vals _ =>
+        -- plain values or the variables holding them: the caller gets the handler's typed results
         if !validResults fs act vals then true else
         (match o.res with | .ok r => dictEq r (normDict act.outs vals) | _ => false)
       | .err (some c) =>
@@ -172,6 +173,35 @@ def cleanReq (stype : Str) (r : Req) : Option (Str × List Xml) :=
     then some (rpc.name, args) else none
   | _ => none
 
+/-- the call element carries two argument elements of one name -/
+def dupArgs (r : Req) : Bool :=
+  match r.body with
+  | some root =>
+    (match root.find (soapq "Body") with
+     | some b => (match b.kids with
+        | rpc :: _ => (rpc.kids.map (·.tag)).eraseDups.length != rpc.kids.length
+        | [] => false)
+     | none => false)
+  | none => false
+
+/-- the request MUST be rejected: it is invalid (`invalidReq`, read with the last of several
+    duplicate argument elements as the code does) and the verdict does not hinge on that reading —
+    the property text does not say which of two duplicate elements counts, so a request with
+    duplicates must be rejected only when it is invalid before any argument is looked at (malformed
+    envelope / header, unknown action); otherwise it merely must not raise (audit C14-2) -/
+def mustReject (fs : Facts) (acts : List SAct) (r : Req) : Bool :=
+  invalidReq fs acts r
+  && (!dupArgs r
+      || (match parseActionBody fs acts r with
+          | .bad reason => reason == "InvalidSoap" || reason == "InvalidAction"
+          | .ok _ _ => false))
+
+/-- the action the `SOAPAction` header names -/
+def headerAct (acts : List SAct) (r : Req) : Option SAct :=
+  match splitHash (stripQuotes (r.soapAction.getD [])) with
+  | [_, name] => acts.find? (fun a => a.name = name)
+  | _ => none
+
 def isClientError (s : Nat) : Bool := 400 ≤ s && s < 500
 
 def rawOk (fs : Facts) (stype : Str) (acts : List SAct) (r : Req) (script : HandlerRes)
@@ -179,21 +209,23 @@ def rawOk (fs : Facts) (stype : Str) (acts : List SAct) (r : Req) (script : Hand
   match o with
   | .unhandled _ =>
     -- an exception may escape only when the *handler* broke its contract on a request that reached it
-    (match script, handlerInput fs acts r with
-     | .ret vals, some (n, _) =>
-       (match acts.find? (fun a => a.name = n) with
+    -- (observed: the handler was called), whatever reading of duplicate elements led there
+    (match script, seen with
+     | .ret vals, some _ | .retVars vals _, some _ =>
+       (match headerAct acts r with
         | some act => !validResults fs act vals
         | none => false)
      | _, _ => false)
   | .resp status fault rets =>
-    if invalidReq fs acts r then
+    if mustReject fs acts r then
       isClientError status || (status = 500 && fault.isSome)
+    else if invalidReq fs acts r then true   -- duplicate argument elements: the text leaves the reading open
     else
       match cleanReq stype r, parseActionBody fs acts r with
       | some _, .ok act kw =>
         (match seen with | some s => dictEq s kw | none => false)
         && (match script with
-            | .ret vals =>
+            | .ret vals | .retVars vals _ =>
               if !validResults fs act vals then true else
               status = 200 && (match rets with | some rv => dictEq rv (normDict act.outs vals) | none => false)
             | .err (some c) =>
